@@ -16,7 +16,8 @@ OWNED = {"u32", "string", "static_str"}
 def ty_rust(t, lt=""):
     """`lt` = "'s " renders every reference borrowed from self with the named receiver lifetime."""
     if lt:
-        return ty_rust(t).replace("&u32", f"&{lt}u32").replace("&str", f"&{lt}str").replace("&[u8]", f"&{lt}[u8]")
+        return (ty_rust(t).replace("&u32", f"&{lt}u32").replace("&str", f"&{lt}str").replace("&[u8]", f"&{lt}[u8]")
+                .replace("&Unit", f"&{lt}Unit"))
     k = t[0]
     if k == "u32":
         return "u32"
@@ -28,6 +29,8 @@ def ty_rust(t, lt=""):
         return "&str"
     if k == "ref_bytes":
         return "&[u8]"
+    if k == "ref_unit":
+        return "&Unit"
     if k == "static_str":
         return "&'static str"
     if k == "opt":
@@ -53,6 +56,8 @@ def ty_cfg(t):
         return "String"
     if k == "ref_bytes":
         return "Vec<u8>"
+    if k == "ref_unit":
+        return "Unit"
     if k == "static_str":
         return "&'static str"
     if k == "opt":
@@ -70,7 +75,7 @@ def ty_cfg(t):
 
 
 def has_ref(t):
-    if t[0] in ("ref_u32", "ref_str", "ref_bytes"):
+    if t[0] in ("ref_u32", "ref_str", "ref_bytes", "ref_unit"):
         return True
     if t[0] in LEAVES:
         return False
@@ -90,7 +95,7 @@ def can_own(t):
     """Does the type have a borrow-free part (an owned leaf can occur in some value)"""
     if not has_ref(t):
         return True
-    if t[0] in LEAVES:
+    if t[0] in LEAVES or t[0] == "ref_unit":
         return False
     return any(can_own(x) for x in t[1:])
 
@@ -105,6 +110,8 @@ def gen_value(t, rng, c: Counter, force=None):
     if k == "ref_bytes":
         n = c.next()
         return [n % 250, (n + 1) % 250]
+    if k == "ref_unit":
+        return "Unit"
     if k == "opt":
         if force in ("first", "owned", "empty") or (force is None and rng.random() < 0.7):
             return ("Some", gen_value(t[1], rng, c, force if force in ("owned", "empty") else None))
@@ -147,6 +154,8 @@ def val_cfg(t, v):
         return json.dumps(v)
     if k == "ref_bytes":
         return "vec![" + ", ".join(f"{x}u8" for x in v) + "]"
+    if k == "ref_unit":
+        return "Unit"
     if k == "opt":
         return f"None::<{ty_cfg(t[1])}>" if v is None else f"Some::<{ty_cfg(t[1])}>({val_cfg(t[1], v[1])})"
     if k == "res":
@@ -171,6 +180,8 @@ def val_debug(t, v):
         return json.dumps(v)
     if k == "ref_bytes":
         return "[" + ", ".join(str(x) for x in v) + "]"
+    if k == "ref_unit":
+        return "Unit"
     if k == "opt":
         return "None" if v is None else f"Some({val_debug(t[1], v[1])})"
     if k == "res":
@@ -193,7 +204,7 @@ def owned_leaves(t, v):
         return 1
     if k in OWNED:
         return 1
-    if k in LEAVES:
+    if k in LEAVES or k == "ref_unit":
         return 0
     if k == "opt":
         return 0 if v is None else owned_leaves(t[1], v[1])
@@ -211,7 +222,7 @@ def owned_leaves(t, v):
 def addr_code(t, expr, depth=0):
     """Rust statements pushing the addresses of the borrowed leaves of `expr` (of type &T) into `out`."""
     k = t[0]
-    if k in ("ref_u32", "ref_str", "ref_bytes"):
+    if k in ("ref_u32", "ref_str", "ref_bytes", "ref_unit"):
         return f"out.push(addr(*{expr}));"
     if k in LEAVES:
         return ""
@@ -264,6 +275,10 @@ def candidate_types(rng: random.Random, n, max_depth=3):
         seen.add(key)
         out.append(t)
     return out
+
+
+# hand-picked types with a zero-sized leaf (not part of the calibrated list; they compile with the pinned macro)
+ZST_TYPES = [("vec", ("ref_unit",)), ("opt", ("ref_unit",)), ("tup", ("ref_unit",), ("u32",)), ("ref_unit",)]
 
 
 def systematic_types():
